@@ -90,13 +90,13 @@ def run(tier, seed):
     ec.model_check(chk, "C14_mc", ec.consts(ACTS, 2, wa=2, wb=3, data=("a", "aCL"), nsel=(1, 9), sizes=(0,)))
     gens = [
         dict(name="C14_exh2", consts=ec.consts(ACTS - {"addiov", "printf"}, 2, wa=1021, wb=4099, data=("a", "bLa"), nsel=(1, 9),
-                                               sizes=(5000,)), max_hist=None if not q else 4000, stride=9 if q else 2),
+                                               sizes=(5000,)), max_hist=None if not q else 4000, stride=18 if q else 2),
         dict(name="C14_rand", consts=ec.consts(ACTS, 12 if q else 20, wa=331, wb=1021, data=("", "a", "b", "aCL", "bLa"),
                                                nsel=(0, 1, 2, 9), sizes=(0, 2000, 5000), maxlen=8),
-             simulate=5 if q else 30, depth=60),
+             simulate=3 if q else 30, depth=60),
         dict(name="C14_rand_cb", consts=ec.consts(ACTS | CB, 12 if q else 20, wa=37, wb=4099, data=("a", "b", "aCL"),
                                                   nsel=(1, 2, 9), sizes=(2000,), maxlen=8, cbmode=1),
-             simulate=5 if q else 30, depth=60),
+             simulate=3 if q else 30, depth=60),
     ]
     nfault = 0
     faulted_ops = {}
